@@ -35,6 +35,11 @@ class Point3(Point):
     z: int = 0
 
 
+@_dc.dataclass(frozen=True)
+class Stop:  # a dataclass without fields (a marker / sentinel message)
+    pass
+
+
 class WithFoo:
     def foo(self): ...
 
@@ -177,7 +182,7 @@ def terms(depth=1):
     K = {}
     from ovld.types import Dataclass
 
-    K["Class"] = [object, A, B, C, D, E, int, bool, str, Sized, Proto, Proto2, WithFoo, tuple, type, Dataclass, Point, Point3]
+    K["Class"] = [object, A, B, C, D, E, int, bool, str, Sized, Proto, Proto2, WithFoo, tuple, type, Dataclass, Point, Point3, Stop]
     K["Alias"] = [list[A], list[B], list[int], list[bool], dict[str, A], dict[str, B], dict[bool, str], dict[int, str], dict[int, A], dict[bool, B], type[A], type[B], type[object], list[list[A]], list[list[B]], typing.List[A], set[A], typing.Tuple[()], tuple[()]]
     K["Union"] = [N(A | E), N(B | C), N(B | E), N(C | B), N(int | str), N(bool | str), N(E | A)]
     K["Inter"] = [I_(A, E), I_(B, C), I_(B, E), I_(C, B), I_(A, Proto), I_(E, A)]
